@@ -1,12 +1,16 @@
-(* C02, flag-table part: format names for which the long flags exist but the -i / --io forms are rejected
-   (decided on the table regenerated from the implementation). *)
+(* C02, flag-table part: the format names md and jsonl, whose long flags exist, are accepted by -i / -o / --io with the
+   effect of the long flags (they were rejected before the repair: KNOWN_FINDINGS.txt "fixed:" lines
+   flag-spelling:-i_jsonl-rejected, --io_jsonl-rejected, --io_md-rejected).  Decided on the table regenerated from the
+   implementation. *)
 From Miller Require Import Base.Bytes Base.Record gen.Gen_Flags C02.FlagSpec.
 
-Lemma io_forms_names_refuted :
+Lemma io_forms_names_fixed :
   has_spelling (B "--ijsonl") = true /\ has_spelling (B "--jsonl") = true /\ has_spelling (B "--md") = true
+  /\ has_spelling (B "--ojsonl") = true /\ has_spelling (B "--imd") = true /\ has_spelling (B "--omd") = true
   /\ is_some (lookup_argv [B "-i"; B "jsonl"]) = true /\ is_some (lookup_argv [B "--io"; B "jsonl"]) = true
   /\ is_some (lookup_argv [B "--io"; B "md"]) = true
-  /\ io_form_check (B "-i") "--i" (B "jsonl") = false
-  /\ io_form_check (B "--io") "--" (B "jsonl") = false
-  /\ io_form_check (B "--io") "--" (B "md") = false.
+  /\ is_some (effect [B "-i"; B "jsonl"]) = true /\ is_some (effect [B "--io"; B "jsonl"]) = true
+  /\ is_some (effect [B "--io"; B "md"]) = true
+  /\ forallb (fun x => io_form_check (B "-i") "--i" x && io_form_check (B "-o") "--o" x && io_form_check (B "--io") "--" x)
+             extra_format_names = true.
 Proof. vm_compute. repeat split; reflexivity. Qed.
